@@ -843,6 +843,15 @@ class Lowering:
 
     def s_WhileStmt(self, n, fs):
         ks = kids(n)
+        if n.get('hasVar') or (ks and ks[0].get('kind') == 'DeclStmt'):
+            # while (T x = init) body  ==  while (1) { T x = init; if (!x) break; body }   (x is re-created
+            # and destroyed every iteration; destructors of modelled types are the model's business)
+            decl, cond, body = ks[0], ks[1], ks[2]
+            lc = self.loop_contract(fs)
+            dl = self.stmt(decl, fs)
+            ctx = Ctx(fs)
+            c = self.cond(cond, ctx)
+            return ['while (1)'] + lc + ['{'] + self.indent(dl + ctx.pre + ['if (!(%s)) break;' % c] + self.block(body, fs), 1) + ['}']
         ctx = Ctx(fs)
         c = self.cond(ks[0], ctx)
         lc = self.loop_contract(fs)
@@ -1337,6 +1346,18 @@ class Lowering:
         except Unsupported:
             pass
         path = n.get('path') or []
+        # a cast whose target is an opaque C struct carries no layout: a plain pointer cast is exact enough,
+        # since nothing in the generated text can look inside the target
+        try:
+            tct = self.ctype(ty(n))
+            base = tct.replace('const ', '').replace('*', '').strip()
+            if base in self.opaque_records or base in self.opaque_auto:
+                e = self.expr(sub, ctx)
+                if ty(n).strip().endswith('*'):
+                    return '((%s)%s)' % (tct, e)
+                return '(*(%s *)&%s)' % (tct, e)
+        except Unsupported:
+            pass
         if len(path) != 1:
             raise Unsupported('derived-to-base path of length %d' % len(path))
         e = self.expr(sub, ctx)
